@@ -264,6 +264,7 @@ func genC17(c *Ctx) {
 	// where the statistics and the field length of a real search come from (phase 2)
 	g.emitStatsFacts()
 	g.emitLengthFacts()
+	g.emitFuzzyFacts()
 	g.emitted = append(g.emitted, "end BlugeGen.C17\n")
 	c.WriteLean("C17", strings.Join(g.emitted, ""))
 	names := []string{}
@@ -1821,4 +1822,39 @@ func (g *c17gen) emitLengthFacts() {
 	add("norm-calc-is-similarity-ComputeNorm", okN)
 
 	g.writeFacts("lengthFacts", "how a field's length and term frequencies are produced (field.go, analysis/freq.go, config.go): (fact, holds)", facts)
+}
+
+// emitFuzzyFacts: the per-term boost of a fuzzy query (search/searcher/search_fuzzy.go boostFromDistance and its caller,
+// search_multi_term.go makeBatchSearchers) — the statements `Bluge.BM25.boostFromDistance` / `fuzzyTermBoost` transcribe.
+func (g *c17gen) emitFuzzyFacts() {
+	sp := g.c.ParseDir("search/searcher")
+	var facts []c17fact
+	add := func(name string, ok bool) { facts = append(facts, c17fact{name, ok}) }
+	bd := sp.Func("boostFromDistance")
+	fc := sp.Func("findFuzzyCandidateTerms")
+	mb := sp.Func("makeBatchSearchers")
+	if bd == nil || fc == nil || mb == nil || bd.Body == nil || fc.Body == nil || mb.Body == nil {
+		g.c.Refuse("search/searcher: boostFromDistance / findFuzzyCandidateTerms / makeBatchSearchers not found (anchor moved)")
+	}
+	st := c17stmtTexts(sp, bd.Body)
+	var pn []string
+	for _, p := range bd.Type.Params.List {
+		for _, n := range p.Names {
+			pn = append(pn, n.Name)
+		}
+	}
+	sigOK := strings.Join(pn, ",") == "fuzziness,automatons,dictTerm,searchTermLen"
+	add("boostFromDistance-is-one-minus-distance-over-min-length", sigOK && len(st) == 6 &&
+		st[2] == "minTermLen := searchTermLen" && st[3] == "thisTermLen := utf8.RuneCountInString(dictTerm)" &&
+		st[4] == "if thisTermLen < minTermLen { minTermLen = thisTermLen }" &&
+		st[5] == "return 1.0 - (float64(termEditDistance) / float64(minTermLen))")
+	add("distance-starts-at-fuzziness-and-drops-per-smaller-automaton", len(st) == 6 &&
+		strings.HasPrefix(st[0], "termEditDistance := fuzziness") &&
+		st[1] == "for i := 1; i < len(automatons); i++ { if vellum.AutomatonContains(automatons[i], []byte(dictTerm)) { termEditDistance-- } }")
+	fcT := c17flat(sp, fc.Body)
+	add("query-term-itself-gets-boost-one", strings.Contains(fcT, "boost := 1.0 if tfd.Term() != term { boost = boostFromDistance(fuzziness, automatons, tfd.Term(), termLen) } boosts = append(boosts, boost)") &&
+		strings.Contains(fcT, "termLen := utf8.RuneCountInString(term)"))
+	mbT := c17flat(sp, mb.Body)
+	add("term-searcher-boost-is-boost-times-term-boost", strings.Contains(mbT, "if termBoosts != nil { qsearchers[i], err = NewTermSearcher(indexReader, term, field, boost*termBoosts[i], scorer, options) } else { qsearchers[i], err = NewTermSearcher(indexReader, term, field, boost, scorer, options) }"))
+	g.writeFacts("fuzzyFacts", "the per-term boost of a fuzzy query (search/searcher/search_fuzzy.go, search_multi_term.go): (fact, holds)", facts)
 }
